@@ -55,6 +55,8 @@ def parseFault (f : String) : Option Fault :=
   | "rotate" => some .rotate
   | "closewriter" => some .closeWriter
   | "closewriter-norepair" => some .closeWriterNoRepair
+  | "fullnorepair" => some .appendFullNoRepair
+  | "closemanager" => some .closeManager
   | _ =>
     match f.splitOn ":" with
     | ["unlink", k] => k.toNat?.map Fault.unlink
@@ -132,6 +134,7 @@ def step (s : Sys) (line : String) : Sys × String :=
     | some i, some e => if s.alive then ({ s with st := s.st.poke i e }, "ok") else (s, "dead")
     | _, _ => (s, "bad-op")
   | ["nextseq"] => (s, if s.alive then toString s.st.nextSeq else "dead")
+  | ["limbo"] => (s, toString s.limbo.length)
   | ["load"] => if s.alive then (s, fmtLoad s.st.load) else (s, "dead")
   | ["disk"] => (s, fmtDisk s.disk)
   | ["writer"] =>
